@@ -823,7 +823,7 @@ func c02Mutate(r *Rand, segs []string) []string {
 }
 
 var c02AEs = []string{"", "", "", "gzip", "br", "zstd", "gzip, br", "zstd, gzip", "br,zstd", "zstd,br,gzip", "gzip, br, zstd", "br;q=1.0, gzip", " gzip ", "GZIP",
-	"gzip;q=0", "x-gzip", "*", "identity", "deflate, gzip", "gzip,", ",br", "zstd ,\tbr", "gzipx", "br, br"}
+	"gzip;q=0", "x-gzip", "*", "identity", "deflate, gzip", "gzip,", ",br", "zstd ,\tbr", "gzipx", "br, br", "xbr", "notzstd", "bro", "gzip2, zstdx", "Br", "ZSTD"}
 
 func c02PickMethod(r *Rand) string {
 	switch k := r.Intn(100); {
@@ -946,6 +946,16 @@ func c02Gen(r *Rand, tier string) []interface{} {
 				}
 			}
 			add(r.Pick(c02SiteKinds), r.Pick([]string{"GET", "GET", "GET", "HEAD"}), c02Render(r, segsOf(f), false, 0), strings.Join(toks, r.Pick([]string{",", ", ", " , "})), false)
+		}
+	}
+
+	// every file that has a precompressed sibling (or whose index page has) x every Accept-Encoding
+	// spelling incl. the decoys that must NOT select a sibling (substring, case, q-values, x-gzip, *)
+	for _, f := range []string{"/a.txt", "/b.txt", "/dir/c.txt", "/dir/sub/d.txt", "/idx/index.html", "/idx/", "/hsib.txt", "/dir/e", "/./a.txt", "/dir/../b.txt"} {
+		for _, ae := range c02AEs[2:] {
+			if thorough || r.Chance(60) {
+				add(r.Pick(c02SiteKinds), r.Pick([]string{"GET", "GET", "GET", "HEAD"}), f, ae, false)
+			}
 		}
 	}
 
